@@ -477,6 +477,46 @@ def rule_OR2_responder(ctx, tier):
             rr.ok("dispute before penalty")
         else:
             rr.fail("ho:order", "the penalty is re-sent on a path that has not re-sent the dispute transaction first", where=ho.line_of(p))
+        # the penalty follows unless the node REJECTED the dispute: every path from the dispute's re-send that skips the
+        # penalty is a path on which the verdict can only be `Rejected` (given the variants send_transaction can build, the
+        # variant tests on the path and the truth tables of the predicates tested on it)
+        from .rulekit import enumerate_paths
+        from .tables import enum_pred_table
+        stc = P.bodies.get(CARRIER + "send_transaction")
+        built = {x[2] for x in og.walk(ctx.og.local(stc, 0)) if isinstance(x, tuple) and x and x[0] == "agg" and x[1].endswith("ConfirmationStatus")} if stc else set()
+        dterm = og.strip(ctx.og.operand(ho, {"m": ho.term(d)["dest"]}))
+        bad = set()
+        try:
+            paths = enumerate_paths(ctx, ho, ho.succ(d), stop=lambda x: x == p or is_iter_next(ho, x), budget=40000)
+        except RuntimeError:
+            paths = None
+        for path, facts, at_ret in paths or []:
+            if path and path[-1] == p:
+                continue
+            poss = set(built)
+            for ft in facts:
+                subj = og.strip(ft[1])
+                if ft[0] == "variant" and subj == dterm:
+                    poss &= {ft[2]}
+                elif ft[0] == "variant_in" and subj == dterm:
+                    poss &= set(ft[2])
+                elif ft[0] == "truth":
+                    raw = ft[1]
+                    pred = args_ = None
+                    if isinstance(raw, tuple) and raw and raw[0] == "ret" and raw[1] in P.bodies:
+                        pred, args_ = raw[1], raw[4]
+                    elif isinstance(subj, tuple) and subj and subj[0] == "call" and subj[1] in P.bodies:
+                        pred, args_ = subj[1], subj[2]
+                    if pred and args_ and og.strip(args_[0]) == dterm:
+                        tb = enum_pred_table(ctx, pred) or {}
+                        poss &= {v_ for v_ in poss if tb.get(v_) in (ft[2], None)}
+            bad |= poss - {"Rejected"}
+        if paths is None:
+            rr.fail("ho:paths", "too many paths in handle_reorged_txs to judge when the penalty is skipped", where=ho.span)
+        elif built and not bad:
+            rr.ok("penalty re-sent unless the dispute was Rejected (send_transaction can answer %s)" % sorted(built), sample={"rule": "OR2r", "skip-penalty paths": "only under Rejected", "buildable verdicts": sorted(built)})
+        else:
+            rr.fail("ho:penalty-skipped:%s" % ",".join(sorted(bad)) if bad else "ho:penalty-skipped:?", "after a reorg the penalty is not re-sent when the dispute's re-send answers %s (only a rejection justifies giving the tracker up): the tracker is dropped although the node refused nothing" % sorted(bad), where=ho.line_of(d))
     else:
         rr.fail("ho:sends:%s" % ",".join(sorted(kinds)), "handle_reorged_txs sends %s; expected the dispute and the penalty of each reorged tracker" % kinds, where=ho.span)
     if sites_containing(ho, "HashSet", "drain"):
@@ -629,6 +669,43 @@ def rule_OR3(ctx, tier):
     if len(mk) != 2:
         rr.fail("key-sites=%d" % len(mk), "expected 2 create_new_tower_keypair sites in main", where=m.span)
     rr.require_floor(10, "OR3 instances")
+    # start-up reads of the TLS identity files: a file is read only if it was just written or found to exist on the same path
+    # (key and certificate are written one after the other; a crash in between leaves the key without its certificate)
+    tl = P.bodies.get("teos::tls::generate_or_load_identity")
+    if tl is None:
+        rr.anchor_missing("teos::tls::generate_or_load_identity")
+    else:
+        from .rulekit import enumerate_paths
+
+        def file_id(term):
+            for x in og.walk(term):
+                if isinstance(x, tuple) and x and x[0] == "call" and x[1].endswith("Path::join") and len(x) > 3:
+                    return x[3]
+            return None
+        reads = [(bb, file_id(arg_origin(ctx, tl, bb, 0))) for bb, t in tl.calls() if (call_target(t) or "").endswith("std::fs::read")]
+        writes = {bb: file_id(arg_origin(ctx, tl, bb, 0)) for bb, t in tl.calls() if (call_target(t) or "").endswith("std::fs::write")}
+        if len(reads) < 2 or len(writes) < 2:
+            rr.anchor_missing("fs::read / fs::write sites in generate_or_load_identity")
+        try:
+            paths = enumerate_paths(ctx, tl, [0], stop=lambda x: x in [r for r, _ in reads][-1:], budget=200000)
+        except RuntimeError:
+            paths = []
+            rr.fail("tls:paths", "too many paths in generate_or_load_identity", where=tl.span)
+        for rb, fid in reads:
+            bad = False
+            for path, facts, at_ret in paths:
+                if rb not in path:
+                    continue
+                pre = path[:path.index(rb)]
+                written = any(w in pre and writes[w] == fid for w in writes)
+                exists = any(ft[0] == "truth" and ft[2] is True and isinstance(ft[1], tuple) and any(isinstance(x, tuple) and x and x[0] == "call" and x[1].endswith("Path::exists") and file_id(x) == fid for x in og.walk(ft[1])) for ft in facts)
+                if not (written or exists):
+                    bad = True
+                    break
+            if fid is not None and not bad:
+                rr.ok("tls: identity file read only after it was written or found to exist")
+            else:
+                rr.fail("tls:read-unchecked", "`generate_or_load_identity` reads an identity file on a path that neither wrote it nor found it to exist: after a crash between writing the key and its certificate every start fails with NotFound until the key is deleted by hand", where=tl.line_of(rb))
     return rr
 
 
